@@ -1,4 +1,5 @@
 #include "default.h"
+#include <memory>
 #include "../../runtime/util.h"
 #include "../../runtime/runtime.h"
 #include "../../runtime/fileio.h"
@@ -1167,27 +1168,6 @@ std::string eval_macro_callback(
     auto res = runtime.evaluate_expression(params[0], success, false);
     return success && !res.empty() ? res.data()->to_string_sqf() : "";
 }
-static int __counter__ = 0;
-std::string counter_macro_callback(
-    const ::sqf::runtime::parser::macro& m,
-    const ::sqf::runtime::diagnostics::diag_info dinf,
-    const ::sqf::runtime::fileio::pathinfo local,
-    const std::vector<std::string>& params,
-    ::sqf::runtime::runtime& runtime)
-{
-    return std::to_string(__counter__++);
-}
-std::string counter_reset_macro_callback(
-    const ::sqf::runtime::parser::macro& m,
-    const ::sqf::runtime::diagnostics::diag_info dinf,
-    const ::sqf::runtime::fileio::pathinfo local,
-    const std::vector<std::string>& params,
-    ::sqf::runtime::runtime& runtime)
-{
-    __counter__ = 0;
-    return "";
-}
-
 
 void sqf::parser::preprocessor::impl_default::instance::push_path(const::sqf::runtime::fileio::pathinfo pathinfo)
 {
@@ -1223,8 +1203,20 @@ sqf::parser::preprocessor::impl_default::impl_default(Logger& logger) : CanLog(l
     m_macros["__GAME_VER_MAJ__"s] = { "__GAME_VER_MAJ__"s, STR(SQFVM_RUNTIME_VERSION_MAJOR) };
     m_macros["__GAME_VER_MIN__"s] = { "__GAME_VER_MIN__"s, STR(SQFVM_RUNTIME_VERSION_MINOR) };
     m_macros["__GAME_BUILD__"s] = { "__GAME_BUILD__"s, STR(SQFVM_RUNTIME_VERSION_REVISION) };
-    m_macros["__COUNTER__"s] = { "__COUNTER__"s, counter_macro_callback };
-    m_macros["__COUNTER_RESET__"s] = { "__COUNTER_RESET__"s, counter_reset_macro_callback };
+    // The counter belongs to this preprocessor (and with it to the runtime owning it), not to the process
+    auto counter = std::make_shared<int>(0);
+    m_macros["__COUNTER__"s] = { "__COUNTER__"s, [counter](
+        const ::sqf::runtime::parser::macro& m,
+        const ::sqf::runtime::diagnostics::diag_info dinf,
+        const ::sqf::runtime::fileio::pathinfo local,
+        const std::vector<std::string>& params,
+        ::sqf::runtime::runtime& runtime) -> std::string { return std::to_string((*counter)++); } };
+    m_macros["__COUNTER_RESET__"s] = { "__COUNTER_RESET__"s, [counter](
+        const ::sqf::runtime::parser::macro& m,
+        const ::sqf::runtime::diagnostics::diag_info dinf,
+        const ::sqf::runtime::fileio::pathinfo local,
+        const std::vector<std::string>& params,
+        ::sqf::runtime::runtime& runtime) -> std::string { *counter = 0; return ""; } };
     m_macros["__FILE__"s] = { "__FILE__"s, file_macro_callback };
     m_macros["__LINE__"s] = { "__LINE__"s, line_macro_callback };
     m_macros["__EXEC"s] = { "__EXEC"s, { "EXPRESSION"s }, eval_macro_callback };
